@@ -235,7 +235,7 @@ def v2_property(pid, tier, cfgs, cont, nontrivial, rule, level="model_checking",
                     v.notes.append("spin detected in %s (verdict of C16)" % c1["name"])
         lap("v1 records done")
         if simple:
-            for c2 in simple_configs(tier):
+            for c2 in simple_configs(tier, pid):
                 rec = v.attempt("simple " + c2["name"], record_simple, binary, sc, c2, 120 if tier == "quick" else 3000)
                 if rec is None:
                     continue
@@ -728,12 +728,18 @@ def mks(name, ver, prios, H, div, cap, items, **kw):
     return c
 
 
-def simple_configs(tier):
+def simple_configs(tier, pid=None):
+    return simple_configs_base(tier) + ([
+        # fewer handlers than inputs (v1 accepts it; v2 New refuses): the configured quantity is still the bound (seeded change C01-f).
+        # Only in C01: with fewer handlers than inputs some priority has a zero share, and what v1 does then is the known finding F4
+        # (C06), which must not be reported again by the checks of other properties
+        mks("simple1few", 1, [3, 2, 1], 2, "fair", 1, 4, stop=True, graceful=True)] if pid == "C01" else [])
+
+
+def simple_configs_base(tier):
     return [mks("simple2fair", 2, [3, 2, 1], 4, "fair", 2, 5), mks("simple2rate", 2, [2, 1], 3, "rate", 1, 6),
             mks("simple1", 1, [2, 1], 3, "rate", 2, 6, stop=True, cancel=True, graceful=True),
-            mks("simple1fair", 1, [3, 2, 1], 4, "fair", 1, 4, stop=True, graceful=True),
-            # fewer handlers than inputs (v1 accepts it; v2 New refuses): the configured quantity is still the bound (seeded change C01-f)
-            mks("simple1few", 1, [3, 2, 1], 2, "fair", 1, 4, stop=True, graceful=True)]
+            mks("simple1fair", 1, [3, 2, 1], 4, "fair", 1, 4, stop=True, graceful=True)]
 
 
 def record_simple(binary, sc, cfg, runs, timeout=900, only=0):
@@ -1054,7 +1060,7 @@ def all_named_configs():
         for kind in ("stop", "dyn", "grace", "fault", "alone"):
             for c in v1_configs(kind, tier):
                 out[c["name"]] = ("v1", c)
-        for c in simple_configs(tier):
+        for c in simple_configs(tier, "C01"):
             out[c["name"]] = ("simple", c)
     return out
 
